@@ -32,6 +32,7 @@ pub open spec fn next(i: int, cap: int) -> int { if i + 1 == cap { 0 } else { i 
 ///  (L) an entry displaced by p > 0 sits right after an occupied slot whose entry is displaced by at least p - 1
 ///      (so every slot between an entry's home and the entry is occupied by an entry at least as displaced as
 ///       its offset: lookups never stop early)
+#[verifier::opaque]
 pub open spec fn wfl<T: Clone>(s: Slots<T>) -> bool {
     &&& s.len() > 0
     &&& forall|i: int| 0 <= i < s.len() && occ(#[trigger] s[i]) ==> s[i].psl as int == dist(i, home(s[i].hash, s.len() as int), s.len() as int)
@@ -58,6 +59,14 @@ pub proof fn lemma_holds_elim<'a, T: Clone>(s: Slots<'a, T>, p: Option<&'a T>, h
 {
     reveal(holds_except);
     choose|i: int| 0 <= i < s.len() && i != skip && occ(#[trigger] s[i]) && s[i].ptr == p && s[i].hash == hash
+}
+
+pub proof fn lemma_holds_weaken<'a, T: Clone>(s: Slots<'a, T>, p: Option<&'a T>, hash: u64, skip: int)
+    requires holds_except(s, p, hash, skip),
+    ensures holds(s, p, hash),
+{
+    let i = lemma_holds_elim(s, p, hash, skip);
+    lemma_holds_intro(s, i, -1);
 }
 
 /// how the stored pairs change when one slot is overwritten
@@ -128,12 +137,13 @@ pub open spec fn prop_pre<T: Clone>(v: Slots<T>, cap: int, itm: HashTableElement
     &&& (occ(v[pos]) ==> v[pos].psl >= itm.psl)
 }
 /// ... and what it establishes
+#[verifier::opaque]
 pub open spec fn prop_post<'a, T: Clone>(v0: Slots<'a, T>, v: Slots<'a, T>, cap: int, itm: HashTableElement<'a, T>, pos: int) -> bool {
     &&& wfl(v) && v.len() == cap
     // the first slot keeps its resident (it is only filled when it was empty); the slot before it is untouched
     &&& (occ(v0[pos]) ==> v[pos] == v0[pos])
     &&& (!occ(v0[pos]) ==> v == v0.update(pos, itm))
-    &&& v[prev(pos, cap)] == v0[prev(pos, cap)]
+    &&& (occ(v0[pos]) ==> v[prev(pos, cap)] == v0[prev(pos, cap)])
     // nothing is lost, nothing appears except the entry, and the entry is stored at a slot other than an occupied first slot
     &&& (forall|p: Option<&'a T>, h: u64| #[trigger] holds(v0, p, h) ==> holds(v, p, h))
     &&& (forall|p: Option<&'a T>, h: u64| #[trigger] holds(v, p, h) ==> holds(v0, p, h) || (p == itm.ptr && h == itm.hash))
@@ -149,6 +159,7 @@ pub open spec fn prop_content<'a, T: Clone>(v: Slots<'a, T>, s: HashTableElement
 }
 /// loop invariant of propagate: `s` is the entry still looking for a slot, `p` the slot it looks at, `n` the
 /// number of slots passed so far
+#[verifier::opaque]
 pub open spec fn prop_inv<'a, T: Clone>(v: Slots<'a, T>, s: HashTableElement<'a, T>, p: int, n: int, v0: Slots<'a, T>, cap: int, itm: HashTableElement<'a, T>, pos0: int) -> bool {
     &&& wfl(v) && v.len() == cap && v0.len() == cap && 0 <= p < cap && 0 <= pos0 < cap && 0 <= n < cap
     &&& p == (pos0 + n) % cap
@@ -205,6 +216,7 @@ pub proof fn lemma_wfl_swap<T: Clone>(v: Slots<T>, s: HashTableElement<T>, p: in
     requires wfl(v), 0 <= p < v.len(), occ(v[p]), chain_ok(v, s, p), v[p].psl < s.psl,
     ensures wfl(v.update(p, s)),
 {
+    reveal(wfl);
     let cap = v.len() as int;
     let v2 = v.update(p, s);
     assert forall|i: int| 0 <= i < v2.len() && occ(#[trigger] v2[i]) implies v2[i].psl as int == dist(i, home(v2[i].hash, cap), cap) by {
@@ -226,6 +238,7 @@ pub proof fn lemma_wfl_fill<T: Clone>(v: Slots<T>, s: HashTableElement<T>, p: in
     requires wfl(v), 0 <= p < v.len(), !occ(v[p]), chain_ok(v, s, p),
     ensures wfl(v.update(p, s)),
 {
+    reveal(wfl);
     let cap = v.len() as int;
     let v2 = v.update(p, s);
     assert forall|i: int| 0 <= i < v2.len() && occ(#[trigger] v2[i]) implies v2[i].psl as int == dist(i, home(v2[i].hash, cap), cap) by {
@@ -252,12 +265,37 @@ pub proof fn lemma_content_step<'a, T: Clone>(v: Slots<'a, T>, s: HashTableEleme
     let v2 = prop_step_v(v, s, p);
     let s2 = prop_step_s(v, s, p);
     if v[p].psl < s.psl {
+        assert(v2 == v.update(p, s));
+        assert(s2.ptr == v[p].ptr && s2.hash == v[p].hash);
         lemma_holds_update(v, p, s, -1);
         lemma_holds_update(v, p, s, pos0);
         lemma_holds_intro(v, p, -1);
-        assert(s2.ptr == v[p].ptr && s2.hash == v[p].hash);
-        assert forall|q: Option<&'a T>, h: u64| #[trigger] holds(v0, q, h) implies holds(v2, q, h) || (q == s2.ptr && h == s2.hash) by {}
-        assert forall|q: Option<&'a T>, h: u64| #[trigger] holds(v2, q, h) implies holds(v0, q, h) || (q == itm.ptr && h == itm.hash) by {}
+        assert(holds(v, v[p].ptr, v[p].hash));
+        assert forall|q: Option<&'a T>, h: u64| #[trigger] holds(v0, q, h) implies holds(v2, q, h) || (q == s2.ptr && h == s2.hash) by {
+            if holds(v, q, h) {
+                assert(holds_except(v, q, h, -1));
+                assert(holds_except(v.update(p, s), q, h, -1) || (q == v[p].ptr && h == v[p].hash));
+            } else {
+                assert(q == s.ptr && h == s.hash);
+                assert(holds_except(v.update(p, s), s.ptr, s.hash, -1));
+            }
+        }
+        assert forall|q: Option<&'a T>, h: u64| #[trigger] holds(v2, q, h) implies holds(v0, q, h) || (q == itm.ptr && h == itm.hash) by {
+            assert(holds_except(v.update(p, s), q, h, -1));
+            if holds_except(v, q, h, -1) { assert(holds(v, q, h)); } else { assert(q == s.ptr && h == s.hash); }
+        }
+        assert(holds(v0, s2.ptr, s2.hash) || (s2.ptr == itm.ptr && s2.hash == itm.hash));
+        assert((s2.ptr == itm.ptr && s2.hash == itm.hash) || holds_except(v2, itm.ptr, itm.hash, pos0)) by {
+            if s.ptr == itm.ptr && s.hash == itm.hash {
+                assert(holds_except(v.update(p, s), s.ptr, s.hash, pos0));
+            } else {
+                assert(holds_except(v, itm.ptr, itm.hash, pos0));
+                assert(holds_except(v.update(p, s), itm.ptr, itm.hash, pos0) || (itm.ptr == v[p].ptr && itm.hash == v[p].hash));
+            }
+        }
+    } else {
+        assert(v2 == v);
+        assert(s2.ptr == s.ptr && s2.hash == s.hash);
     }
 }
 
@@ -272,15 +310,39 @@ pub proof fn lemma_content_exit<'a, T: Clone>(v: Slots<'a, T>, s: HashTableEleme
     lemma_holds_update(v, p, s, -1);
     lemma_holds_update(v, p, s, pos0);
     let v2 = v.update(p, s);
-    assert forall|q: Option<&'a T>, h: u64| #[trigger] holds(v0, q, h) implies holds(v2, q, h) by {}
-    assert forall|q: Option<&'a T>, h: u64| #[trigger] holds(v2, q, h) implies holds(v0, q, h) || (q == itm.ptr && h == itm.hash) by {}
-    if skip == -1 {
-        if !(s.ptr == itm.ptr && s.hash == itm.hash) {
-            let i = lemma_holds_elim(v, itm.ptr, itm.hash, pos0);
-            assert(v2[i] == v[i]);
+    assert forall|q: Option<&'a T>, h: u64| #[trigger] holds(v0, q, h) implies holds(v2, q, h) by {
+        if holds(v, q, h) {
+            assert(holds_except(v, q, h, -1));
+            assert(holds_except(v.update(p, s), q, h, -1));
+        } else {
+            assert(q == s.ptr && h == s.hash);
+            assert(holds_except(v.update(p, s), s.ptr, s.hash, -1));
+        }
+    }
+    assert forall|q: Option<&'a T>, h: u64| #[trigger] holds(v2, q, h) implies holds(v0, q, h) || (q == itm.ptr && h == itm.hash) by {
+        assert(holds_except(v.update(p, s), q, h, -1));
+        if holds_except(v, q, h, -1) { assert(holds(v, q, h)); } else { assert(q == s.ptr && h == s.hash); }
+    }
+    if s.ptr == itm.ptr && s.hash == itm.hash {
+        if skip == -1 { assert(holds_except(v.update(p, s), s.ptr, s.hash, -1)); }
+        else { assert(holds_except(v.update(p, s), s.ptr, s.hash, pos0)); }
+    } else {
+        assert(holds_except(v, itm.ptr, itm.hash, pos0));
+        assert(holds_except(v.update(p, s), itm.ptr, itm.hash, pos0));
+        if skip == -1 {
+            let i = lemma_holds_elim(v2, itm.ptr, itm.hash, pos0);
             lemma_holds_intro(v2, i, -1);
         }
     }
+}
+
+pub proof fn lemma_prop_init<'a, T: Clone>(v: Slots<'a, T>, cap: int, itm: HashTableElement<'a, T>, pos: int)
+    requires prop_pre(v, cap, itm, pos),
+    ensures prop_inv(v, itm, pos, 0, v, cap, itm, pos),
+{
+    reveal(wfl);
+    reveal(prop_inv);
+    vstd::arithmetic::div_mod::lemma_small_mod(pos as nat, cap as nat);
 }
 
 /// the invariant is preserved by an iteration on an occupied slot
@@ -290,8 +352,10 @@ pub proof fn lemma_prop_step<'a, T: Clone>(v: Slots<'a, T>, s: HashTableElement<
         s.psl as int + 1 < 256, s.psl as int + 1 < cap, v[p].psl as int + 1 < 256, v[p].psl as int + 1 < cap, n + 1 < cap,
     ensures
         prop_inv(prop_step_v(v, s, p), prop_step_s(v, s, p), next(p, cap), n + 1, v0, cap, itm, pos0),
-        next(p, cap) == (p + 1) % cap,
+        next(p, cap) == (p + 1) % cap, 0 <= next(p, cap) < cap, prop_step_v(v, s, p).len() == cap,
 {
+    reveal(wfl);
+    reveal(prop_inv);
     let v2 = prop_step_v(v, s, p);
     let s2 = prop_step_s(v, s, p);
     let p2 = next(p, cap);
@@ -315,29 +379,27 @@ pub proof fn lemma_prop_step<'a, T: Clone>(v: Slots<'a, T>, s: HashTableElement<
 
 /// leaving the loop at an empty slot establishes the postcondition
 pub proof fn lemma_prop_exit<'a, T: Clone>(v: Slots<'a, T>, s: HashTableElement<'a, T>, p: int, n: int, v0: Slots<'a, T>, cap: int, itm: HashTableElement<'a, T>, pos0: int)
-    requires prop_inv(v, s, p, n, v0, cap, itm, pos0), !occ(v[p]),
+    requires prop_inv(v, s, p, n, v0, cap, itm, pos0), !occ(v[p]), n + 1 < cap || n == 0,
     ensures prop_post(v0, v.update(p, s), cap, itm, pos0),
 {
+    reveal(wfl);
+    reveal(prop_inv); reveal(prop_post);
     let v2 = v.update(p, s);
-    if n + 1 < cap { lemma_mod_next(pos0, n, cap); }
-    else {
-        // n == cap - 1: the probe is at prev(pos0); only possible when n == 0 (cap == 1) -- otherwise slot pos0 is occupied
-        assert(n == 0 || p != pos0) by {
-            if n > 0 { vstd::arithmetic::div_mod::lemma_mod_sub_multiples_vanish(pos0 + n, cap);
-                       if pos0 + n >= cap { vstd::arithmetic::div_mod::lemma_small_mod((pos0 + n - cap) as nat, cap as nat); } else { vstd::arithmetic::div_mod::lemma_small_mod((pos0 + n) as nat, cap as nat); } }
-            else { vstd::arithmetic::div_mod::lemma_small_mod(pos0 as nat, cap as nat); }
-        }
+    if n == 0 {
+        assert(p == pos0) by { vstd::arithmetic::div_mod::lemma_small_mod(pos0 as nat, cap as nat); }
+    } else {
+        lemma_mod_next(pos0, n, cap);
+        assert(p != pos0 && p != prev(pos0, cap));
     }
     lemma_wfl_fill(v, s, p);
     let skip = if occ(v0[pos0]) { pos0 } else { -1int };
-    assert(n == 0 ==> p == pos0) by { if n == 0 { vstd::arithmetic::div_mod::lemma_small_mod(pos0 as nat, cap as nat); } }
-    assert(n > 0 ==> p != pos0);
     lemma_content_exit(v, s, p, v0, itm, pos0, skip);
 }
 
 //%% extract src/backing_store/bump_table.rs :: - :: fn propagate
 //%% @pub
 //%% @attr #[verifier::exec_allows_no_decreases_clause]
+//%% @attr #[verifier::loop_isolation(false)]
 //%% @spec
     requires
         prop_pre(old(v)@, cap as int, itm, pos as int),
@@ -349,19 +411,17 @@ pub proof fn lemma_prop_exit<'a, T: Clone>(v: Slots<'a, T>, s: HashTableElement<
     let ghost mut n: int = 0;
     proof {
         axiom_clone_eq::<HashTableElement<'a, T>>();
-        vstd::arithmetic::div_mod::lemma_small_mod(pos as nat, cap as nat);
-        assert(prop_inv(v@, itm, pos as int, 0, v0, cap as int, itm, pos0)) by {
-            assert(holds(v0, itm.ptr, itm.hash) || (itm.ptr == itm.ptr && itm.hash == itm.hash));
-        }
+        lemma_prop_init(v@, cap as int, itm, pos as int);
     }
 //%% @loop 1 /^loop$/
         invariant
             prop_inv(v@, searcher, pos as int, n, v0, cap as int, itm, pos0),
+            v@.len() == cap, 0 <= pos < cap, v0 == old(v)@,
             forall|a: HashTableElement<'a, T>, b: HashTableElement<'a, T>| #[trigger] call_ensures(HashTableElement::<'a, T>::clone, (&a,), b) ==> a == b,
 //%% @loopbody 1
         proof {
+            axiom_probe_bound(searcher.psl, n, cap);
             if occ(v@[pos as int]) {
-                axiom_probe_bound(searcher.psl, n, cap);
                 axiom_probe_bound(v@[pos as int].psl, n, cap);
                 lemma_prop_step(v@, searcher, pos as int, n, v0, cap as int, itm, pos0);
                 n = n + 1;
@@ -370,3 +430,395 @@ pub proof fn lemma_prop_exit<'a, T: Clone>(v: Slots<'a, T>, s: HashTableElement<
             }
         }
 //%% end
+
+// ---------------------------------------------------------------------------
+// the table
+// ---------------------------------------------------------------------------
+//%% extract src/backing_store/bump_table.rs :: - :: struct BackedRobinhoodTable
+//%% @pub
+//%% end
+
+/// what get_or_insert_by_hash(hash, elem, by_hash) establishes between the table before (o) and after (f);
+/// r is the returned reference
+#[verifier::opaque]
+pub open spec fn goi_post<'a, T: Clone + PartialEq>(o: Slots<'a, T>, f: Slots<'a, T>, hash: u64, elem: T, by_hash: bool, r: &'a T) -> bool {
+    &&& wfl(f)
+    // nothing is lost, nothing appears except (possibly) the returned entry, which is stored under `hash`
+    &&& (forall|q: Option<&'a T>, h: u64| #[trigger] holds(o, q, h) ==> holds(f, q, h))
+    &&& (forall|q: Option<&'a T>, h: u64| #[trigger] holds(f, q, h) ==> holds(o, q, h) || (q == Some(r) && h == hash))
+    &&& holds(f, Some(r), hash)
+    // the returned element is `==` to the requested one
+    &&& (by_hash || (*r).eq_spec(&elem))
+    // hash-consing: if a matching element was already stored, the returned reference is one that was already
+    // in the table -- no second copy is allocated, however often the table has grown
+    &&& (present(o, hash, elem, by_hash) ==> holds(o, Some(r), hash))
+}
+
+/// the two tables store the same (pointer, hash) pairs
+pub open spec fn same_content<'a, T: Clone>(a: Slots<'a, T>, b: Slots<'a, T>) -> bool {
+    forall|p: Option<&'a T>, h: u64| #![trigger holds(a, p, h)] #![trigger holds(b, p, h)] holds(a, p, h) == holds(b, p, h)
+}
+
+/// invariant of the search loop: every slot closer to the home slot than the current one is occupied by an
+/// entry at least as displaced as its offset, and none of them matches
+#[verifier::opaque]
+pub open spec fn search_inv<'a, T: Clone + PartialEq>(o: Slots<'a, T>, g: Slots<'a, T>, cap: int, hash: u64, elem: T, by_hash: bool, pos: int, psl: int) -> bool {
+    &&& wfl(g) && g.len() == cap && 0 <= pos < cap && same_content(o, g)
+    &&& psl == dist(pos, home(hash, cap), cap)
+    &&& forall|j: int| 0 <= j < cap && dist(j, home(hash, cap), cap) < psl ==>
+            occ(#[trigger] g[j]) && g[j].psl as int >= dist(j, home(hash, cap), cap) && !matches(g[j], hash, elem, by_hash)
+}
+
+pub open spec fn mk_entry<'a, T: Clone>(r: &'a T, hash: u64, psl: u8) -> HashTableElement<'a, T> {
+    HashTableElement { ptr: Some(r), hash: hash, psl: psl }
+}
+
+/// walking k slots back from slot j
+pub open spec fn back(j: int, k: int, cap: int) -> int
+    decreases k
+{
+    if k <= 0 { j } else { back(prev(j, cap), k - 1, cap) }
+}
+
+pub proof fn lemma_back_dist(j: int, k: int, h: int, cap: int)
+    requires 0 <= j < cap, 0 <= h < cap, 0 <= k <= dist(j, h, cap),
+    ensures 0 <= back(j, k, cap) < cap, dist(back(j, k, cap), h, cap) == dist(j, h, cap) - k,
+    decreases k,
+{
+    if k > 0 { lemma_back_dist(prev(j, cap), k - 1, h, cap); }
+}
+
+/// (L) iterated: k slots before an entry displaced by at least k sits an occupied slot displaced by at least psl - k
+pub proof fn lemma_chain<T: Clone>(s: Slots<T>, j: int, k: int)
+    requires wfl(s), 0 <= j < s.len(), occ(s[j]), 0 <= k <= s[j].psl,
+    ensures 0 <= back(j, k, s.len() as int) < s.len(), occ(s[back(j, k, s.len() as int)]), s[back(j, k, s.len() as int)].psl as int >= s[j].psl as int - k,
+    decreases k,
+{
+    reveal(wfl);
+    let cap = s.len() as int;
+    if k > 0 {
+        assert(occ(s[prev(j, cap)]) && s[prev(j, cap)].psl as int + 1 >= s[j].psl as int);
+        lemma_chain(s, prev(j, cap), k - 1);
+    }
+}
+
+pub proof fn lemma_dist_unique(i: int, j: int, h: int, cap: int)
+    requires 0 <= i < cap, 0 <= j < cap, 0 <= h < cap, dist(i, h, cap) == dist(j, h, cap),
+    ensures i == j,
+{}
+
+/// when the search stops (empty slot, or a resident richer than the searcher) no slot of the table matches
+pub proof fn lemma_absent<'a, T: Clone + PartialEq>(o: Slots<'a, T>, g: Slots<'a, T>, cap: int, hash: u64, elem: T, by_hash: bool, pos: int, psl: int)
+    requires
+        search_inv(o, g, cap, hash, elem, by_hash, pos, psl),
+        !occ(g[pos]) || (g[pos].psl as int) < psl,
+    ensures
+        !present(g, hash, elem, by_hash),
+{
+    reveal(wfl);
+    reveal(search_inv);
+    let hm = home(hash, cap);
+    assert forall|j: int| 0 <= j < g.len() implies !matches(#[trigger] g[j], hash, elem, by_hash) by {
+        if matches(g[j], hash, elem, by_hash) {
+            let pj = g[j].psl as int;
+            assert(pj == dist(j, hm, cap));
+            if pj >= psl {
+                lemma_chain(g, j, pj - psl);
+                lemma_back_dist(j, pj - psl, hm, cap);
+                lemma_dist_unique(back(j, pj - psl, cap), pos, hm, cap);
+            }
+        }
+    }
+}
+
+/// transfer of `present` / `holds` between tables with the same content
+pub proof fn lemma_present_same<'a, T: Clone + PartialEq>(a: Slots<'a, T>, b: Slots<'a, T>, hash: u64, elem: T, by_hash: bool)
+    requires same_content(a, b), present(a, hash, elem, by_hash),
+    ensures present(b, hash, elem, by_hash),
+{
+    let i = choose|i: int| 0 <= i < a.len() && matches(#[trigger] a[i], hash, elem, by_hash);
+    lemma_holds_intro(a, i, -1);
+    assert(holds(b, a[i].ptr, a[i].hash));
+    let j = lemma_holds_elim(b, a[i].ptr, a[i].hash, -1);
+    assert(matches(b[j], hash, elem, by_hash));
+}
+
+/// hit: the table is returned unchanged
+pub proof fn lemma_goi_hit<'a, T: Clone + PartialEq>(o: Slots<'a, T>, g: Slots<'a, T>, cap: int, hash: u64, elem: T, by_hash: bool, pos: int, psl: int)
+    requires
+        search_inv(o, g, cap, hash, elem, by_hash, pos, psl), matches(g[pos], hash, elem, by_hash),
+    ensures
+        goi_post(o, g, hash, elem, by_hash, g[pos].ptr->Some_0), wfl(g),
+{
+    reveal(search_inv); reveal(goi_post);
+    lemma_holds_intro(g, pos, -1);
+    assert(holds(g, g[pos].ptr, hash));
+    assert(g[pos].ptr == Some(g[pos].ptr->Some_0));
+}
+
+/// miss at an empty slot: the new entry is stored there
+pub proof fn lemma_goi_empty<'a, T: Clone + PartialEq>(o: Slots<'a, T>, g: Slots<'a, T>, cap: int, hash: u64, elem: T, by_hash: bool, pos: int, psl: int, e: HashTableElement<'a, T>, r: &'a T)
+    requires
+        search_inv(o, g, cap, hash, elem, by_hash, pos, psl), !occ(g[pos]),
+        e == mk_entry(r, hash, psl as u8), 0 <= psl < 256, *r == elem, (*r).eq_spec(&elem),
+    ensures
+        goi_post(o, g.update(pos, e), hash, elem, by_hash, r), wfl(g.update(pos, e)),
+{
+    reveal(wfl);
+    lemma_absent(o, g, cap, hash, elem, by_hash, pos, psl);
+    reveal(search_inv); reveal(goi_post);
+    let f = g.update(pos, e);
+    let hm = home(hash, cap);
+    assert(chain_ok(g, e, pos)) by {
+        if psl > 0 {
+            let pp = prev(pos, cap);
+            assert(dist(pp, hm, cap) == psl - 1);
+            assert(occ(g[pp]) && g[pp].psl as int >= psl - 1);
+        }
+    }
+    lemma_wfl_fill(g, e, pos);
+    lemma_holds_update(g, pos, e, -1);
+    assert forall|q: Option<&'a T>, h: u64| #[trigger] holds(o, q, h) implies holds(f, q, h) by { assert(holds(g, q, h)); }
+    assert forall|q: Option<&'a T>, h: u64| #[trigger] holds(f, q, h) implies holds(o, q, h) || (q == Some(r) && h == hash) by {
+        if holds_except(g, q, h, -1) { assert(holds(g, q, h)); }
+    }
+    if present(o, hash, elem, by_hash) { lemma_present_same(o, g, hash, elem, by_hash); }
+}
+
+/// miss at a richer resident: the resident is pushed on by propagate, then the new entry overwrites its old slot
+pub proof fn lemma_goi_displace<'a, T: Clone + PartialEq>(o: Slots<'a, T>, g: Slots<'a, T>, v2: Slots<'a, T>, cap: int, hash: u64, elem: T, by_hash: bool, pos: int, psl: int, e: HashTableElement<'a, T>, r: &'a T)
+    requires
+        search_inv(o, g, cap, hash, elem, by_hash, pos, psl), occ(g[pos]), (g[pos].psl as int) < psl,
+        prop_post(g, v2, cap, g[pos], pos),
+        e == mk_entry(r, hash, psl as u8), 0 <= psl < 256, *r == elem, (*r).eq_spec(&elem),
+    ensures
+        goi_post(o, v2.update(pos, e), hash, elem, by_hash, r), wfl(v2.update(pos, e)), v2.len() == cap,
+{
+    reveal(wfl);
+    lemma_absent(o, g, cap, hash, elem, by_hash, pos, psl);
+    reveal(search_inv); reveal(goi_post); reveal(prop_post);
+    let f = v2.update(pos, e);
+    let hm = home(hash, cap);
+    let cur = g[pos];
+    let pp = prev(pos, cap);
+    assert(psl > 0);
+    assert(dist(pp, hm, cap) == psl - 1);
+    assert(occ(g[pp]) && g[pp].psl as int >= psl - 1);
+    assert(pp != pos);
+    assert(v2[pp] == g[pp] && v2[pos] == cur);
+    // well-formedness of f
+    assert(wfl(f)) by {
+        assert forall|i: int| 0 <= i < f.len() && occ(#[trigger] f[i]) implies f[i].psl as int == dist(i, home(f[i].hash, cap), cap) by {
+            if i != pos { assert(f[i] == v2[i]); }
+        }
+        assert forall|i: int| 0 <= i < f.len() && occ(#[trigger] f[i]) && f[i].psl > 0 implies
+            occ(f[prev(i, cap)]) && f[prev(i, cap)].psl as int + 1 >= f[i].psl as int by {
+            if i == pos {
+                assert(f[pp] == v2[pp]);
+            } else {
+                assert(f[i] == v2[i]);
+                if prev(i, cap) == pos { assert(occ(v2[pos]) && v2[pos].psl as int + 1 >= v2[i].psl as int); }
+                else { assert(f[prev(i, cap)] == v2[prev(i, cap)]); }
+            }
+        }
+    }
+    // content
+    lemma_holds_update(v2, pos, e, -1);
+    lemma_holds_intro(g, pos, -1);
+    assert forall|q: Option<&'a T>, h: u64| #[trigger] holds(o, q, h) implies holds(f, q, h) by {
+        assert(holds(g, q, h));
+        assert(holds(v2, q, h));
+        if !holds_except(f, q, h, -1) {
+            // then (q, h) is the pair of the overwritten slot v2[pos] == cur, which propagate stored elsewhere
+            assert(q == cur.ptr && h == cur.hash);
+            let j = lemma_holds_elim(v2, cur.ptr, cur.hash, pos);
+            assert(f[j] == v2[j]);
+            lemma_holds_intro(f, j, -1);
+        }
+    }
+    assert forall|q: Option<&'a T>, h: u64| #[trigger] holds(f, q, h) implies holds(o, q, h) || (q == Some(r) && h == hash) by {
+        if holds_except(v2, q, h, -1) { assert(holds(v2, q, h)); assert(holds(g, q, h)); }
+    }
+    if present(o, hash, elem, by_hash) { lemma_present_same(o, g, hash, elem, by_hash); }
+}
+
+/// the table after get_or_insert_by_hash is well formed again
+pub proof fn lemma_goi_wfl<'a, T: Clone + PartialEq>(o: Slots<'a, T>, f: Slots<'a, T>, hash: u64, elem: T, by_hash: bool, r: &'a T)
+    requires goi_post(o, f, hash, elem, by_hash, r),
+    ensures wfl(f),
+{ reveal(goi_post); }
+
+/// the search moves on to the next slot
+pub proof fn lemma_search_step<'a, T: Clone + PartialEq>(o: Slots<'a, T>, g: Slots<'a, T>, cap: int, hash: u64, elem: T, by_hash: bool, pos: int, psl: int)
+    requires
+        search_inv(o, g, cap, hash, elem, by_hash, pos, psl), occ(g[pos]), !matches(g[pos], hash, elem, by_hash), g[pos].psl as int >= psl, psl + 1 < cap,
+    ensures
+        search_inv(o, g, cap, hash, elem, by_hash, next(pos, cap), psl + 1), next(pos, cap) == (pos + 1) % cap, 0 <= next(pos, cap) < cap,
+{
+    reveal(wfl);
+    reveal(search_inv);
+    lemma_next_mod(pos, cap);
+    let hm = home(hash, cap);
+    lemma_dist_next(pos, hm, cap);
+    assert forall|j: int| 0 <= j < cap && dist(j, hm, cap) < psl + 1 implies
+        occ(#[trigger] g[j]) && g[j].psl as int >= dist(j, hm, cap) && !matches(g[j], hash, elem, by_hash) by {
+        if dist(j, hm, cap) == psl { lemma_dist_unique(j, pos, hm, cap); }
+    }
+}
+
+pub proof fn lemma_search_init<'a, T: Clone + PartialEq>(o: Slots<'a, T>, g: Slots<'a, T>, cap: int, hash: u64, elem: T, by_hash: bool)
+    requires wfl(g), g.len() == cap, same_content(o, g),
+    ensures search_inv(o, g, cap, hash, elem, by_hash, home(hash, cap), 0),
+{
+    reveal(wfl);
+    reveal(search_inv);
+}
+
+/// a table whose slots are all empty stores nothing
+pub proof fn lemma_empty_holds<'a, T: Clone>(t: Slots<'a, T>, q: Option<&'a T>, h: u64)
+    requires forall|i: int| 0 <= i < t.len() ==> !occ(#[trigger] t[i]),
+    ensures !holds(t, q, h),
+{
+    if holds(t, q, h) { let i = lemma_holds_elim(t, q, h, -1); }
+}
+pub proof fn lemma_empty_wfl<T: Clone>(t: Slots<T>)
+    requires t.len() > 0, forall|i: int| 0 <= i < t.len() ==> !occ(#[trigger] t[i]),
+    ensures wfl(t),
+{ reveal(wfl); }
+
+impl<'a, T: Clone> BackedRobinhoodTable<'a, T>
+where
+    T: Hash + PartialEq + Eq + Clone,
+{
+    /// representation invariant of the table
+    pub open spec fn twf(&self) -> bool { wfl(self.tbl@) && self.tbl.len() == self.cap && self.cap > 0 }
+
+//%% extract src/backing_store/bump_table.rs :: impl<'a, T: Clone> BackedRobinhoodTable<'a, T> where T: Hash + PartialEq + Eq + Clone, :: fn is_occupied
+//%% @ret r
+//%% @spec
+        requires pos < self.tbl.len(),
+        ensures r == occ(self.tbl@[pos as int]),
+//%% end
+
+//%% extract src/backing_store/bump_table.rs :: impl<'a, T: Clone> BackedRobinhoodTable<'a, T> where T: Hash + PartialEq + Eq + Clone, :: fn propagate
+//%% @spec
+        requires
+            old(self).tbl.len() == old(self).cap, prop_pre(old(self).tbl@, old(self).cap as int, itm, pos as int),
+        ensures
+            prop_post(old(self).tbl@, final(self).tbl@, old(self).cap as int, itm, pos as int),
+            final(self).cap == old(self).cap, final(self).len == old(self).len, final(self).tbl.len() == final(self).cap,
+//%% @entry
+        proof { reveal(prop_post); }
+//%% end
+
+//%% extract src/backing_store/bump_table.rs :: impl<'a, T: Clone> BackedRobinhoodTable<'a, T> where T: Hash + PartialEq + Eq + Clone, :: fn grow
+//%% @attr #[verifier::loop_isolation(false)]
+//%% @rewrite 1 /\(self\.cap \+ 1\)\.next_power_of_two\(\)/ => verif_next_power_of_two(self.cap + 1)
+//%% @rewrite 1 /for i in old\.iter\(\) \{/ => for i in it: old.iter() {
+//%% @spec
+        requires
+            old(self).twf(),
+        ensures
+            final(self).twf(), final(self).cap > old(self).cap, final(self).len == old(self).len,
+            // growth keeps exactly the stored (pointer, hash) pairs
+            same_content(old(self).tbl@, final(self).tbl@),
+//%% @entry
+        let ghost o = self.tbl@;
+        proof {
+            axiom_table_size_bound(self.len, self.cap);
+            axiom_clone_eq::<HashTableElement<'a, T>>();
+            assert forall|t: Slots<'a, T>, q: Option<&'a T>, h: u64| (forall|i: int| 0 <= i < t.len() ==> !occ(#[trigger] t[i])) && #[trigger] holds(t, q, h) implies false by {
+                lemma_empty_holds(t, q, h);
+            }
+            assert forall|t: Slots<'a, T>| t.len() > 0 && (forall|i: int| 0 <= i < t.len() ==> !occ(#[trigger] t[i])) implies #[trigger] wfl(t) by {
+                lemma_empty_wfl(t);
+            }
+            assert forall|q: Option<&'a T>, h: u64| #[trigger] holds(o, q, h) implies
+                exists|j: int| 0 <= j < o.len() && occ(#[trigger] o[j]) && o[j].ptr == q && o[j].hash == h by {
+                let j = lemma_holds_elim(o, q, h, -1);
+            }
+        }
+//%% @loop 1 /^for i in it: old\.iter\(\)$/
+            invariant
+                self.tbl.len() == self.cap, self.cap > 0, wfl(self.tbl@), old@ == o,
+                forall|a: HashTableElement<'a, T>, b: HashTableElement<'a, T>| #[trigger] call_ensures(HashTableElement::<'a, T>::clone, (&a,), b) ==> a == b,
+                // the entries of the first it.index slots of the old array have been moved over, and nothing else
+                forall|q: Option<&'a T>, h: u64| #[trigger] holds(self.tbl@, q, h) ==> holds(o, q, h),
+                forall|j: int| 0 <= j < it.index@ && occ(#[trigger] o[j]) ==> holds(self.tbl@, o[j].ptr, o[j].hash),
+//%% @loopbody 1
+            proof {
+                let j = it.index@ as int;
+                let cur = o[j];
+                if occ(cur) {
+                    let itm0 = with_psl(cur, 0);
+                    let p0 = home(cur.hash, self.cap as int);
+                    assert(prop_pre(self.tbl@, self.cap as int, itm0, p0));
+                    lemma_holds_intro(o, j, -1);
+                    assert forall|v2: Slots<'a, T>| #[trigger] prop_post(self.tbl@, v2, self.cap as int, itm0, p0) implies
+                        wfl(v2) && v2.len() == self.cap
+                        && (forall|q: Option<&'a T>, h: u64| #[trigger] holds(v2, q, h) ==> holds(o, q, h))
+                        && (forall|jj: int| 0 <= jj < j + 1 && occ(#[trigger] o[jj]) ==> holds(v2, o[jj].ptr, o[jj].hash)) by {
+                        reveal(prop_post);
+                        lemma_holds_weaken(v2, itm0.ptr, itm0.hash, if occ(self.tbl@[p0]) { p0 } else { -1 });
+                        assert forall|jj: int| 0 <= jj < j + 1 && occ(#[trigger] o[jj]) implies holds(v2, o[jj].ptr, o[jj].hash) by {
+                            if jj < j { assert(holds(self.tbl@, o[jj].ptr, o[jj].hash)); }
+                        }
+                    }
+                }
+            }
+//%% end
+
+//%% extract src/backing_store/bump_table.rs :: impl<'a, T: Eq + Hash + Clone> BackedRobinhoodTable<'a, T> :: fn get_or_insert_by_hash
+//%% @attr #[verifier::exec_allows_no_decreases_clause]
+//%% @ret r
+//%% @rewrite 1 /\(self\.len \+ 1\) as f64 > \(self\.cap as f64 \* LOAD_FACTOR\)/ => verif_table_grow_decision(self.len, self.cap)
+//%% @rewrite 1 /\n                        self\.hits \+= 1;/ => 
+//%% @spec
+        requires
+            old(self).twf(),
+        ensures
+            goi_post(old(self).tbl@, final(self).tbl@, hash, elem, equality_by_hash, r),
+            final(self).tbl.len() == final(self).cap, final(self).cap > 0,
+//%% @entry
+        let ghost o = self.tbl@;
+        proof {
+            axiom_eq_equiv::<T>(); axiom_clone_eq::<HashTableElement<'a, T>>();
+            assert forall|g: Slots<'a, T>, cap: int, p0: int| wfl(g) && g.len() == cap && same_content(o, g) && p0 == home(hash, cap)
+                implies #[trigger] search_inv(o, g, cap, hash, elem, equality_by_hash, p0, 0) by {
+                lemma_search_init(o, g, cap, hash, elem, equality_by_hash);
+            }
+        }
+//%% @loop 1 /^loop$/
+            invariant
+                search_inv(o, self.tbl@, self.cap as int, hash, elem, equality_by_hash, pos as int, psl as int),
+                self.tbl.len() == self.cap, 0 <= pos < self.cap, o == old(self).tbl@,
+                T::obeys_eq_spec(), forall|a: T| #[trigger] a.eq_spec(&a),
+                forall|a: HashTableElement<'a, T>, b: HashTableElement<'a, T>| #[trigger] call_ensures(HashTableElement::<'a, T>::clone, (&a,), b) ==> a == b,
+//%% @loopbody 1
+            proof {
+                let g = self.tbl@;
+                let cap = self.cap as int;
+                axiom_probe_bound(psl, 0, self.cap);
+                axiom_table_size_bound(self.len, self.cap);
+                if occ(g[pos as int]) {
+                    if matches(g[pos as int], hash, elem, equality_by_hash) {
+                        lemma_goi_hit(o, g, cap, hash, elem, equality_by_hash, pos as int, psl as int);
+                    } else if g[pos as int].psl < psl {
+                        assert(prop_pre(g, cap, g[pos as int], pos as int)) by { reveal(search_inv); reveal(wfl); }
+                        assert forall|v2: Slots<'a, T>, e: HashTableElement<'a, T>, rr: &'a T|
+                            prop_post(g, v2, cap, g[pos as int], pos as int) && e == mk_entry(rr, hash, psl) && *rr == elem
+                            implies #[trigger] goi_post(o, v2.update(pos as int, e), hash, elem, equality_by_hash, rr) && wfl(v2.update(pos as int, e)) && v2.len() == cap by {
+                            lemma_goi_displace(o, g, v2, cap, hash, elem, equality_by_hash, pos as int, psl as int, e, rr);
+                        }
+                    } else {
+                        lemma_search_step(o, g, cap, hash, elem, equality_by_hash, pos as int, psl as int);
+                    }
+                } else {
+                    assert forall|e: HashTableElement<'a, T>, rr: &'a T| e == mk_entry(rr, hash, psl) && *rr == elem
+                        implies #[trigger] goi_post(o, g.update(pos as int, e), hash, elem, equality_by_hash, rr) && wfl(g.update(pos as int, e)) by {
+                        lemma_goi_empty(o, g, cap, hash, elem, equality_by_hash, pos as int, psl as int, e, rr);
+                    }
+                }
+            }
+//%% end
+}
